@@ -17,13 +17,13 @@ import (
 
 // declComments is the comment model of one top-level declaration.
 type declComments struct {
-	Canon    *ref.N
+	Canon     *ref.N
 	IsImport  bool
 	ImportKey string
-	Doc      []string // comment group ending on the line before the declaration
-	Interior []string // comments inside [Pos, End]
-	Trailing []string // comments after End on the same line
-	Detached []string // free-standing comments between the previous declaration and this one
+	Doc       []string // comment group ending on the line before the declaration
+	Interior  []string // comments inside [Pos, End]
+	Trailing  []string // comments after End on the same line
+	Detached  []string // free-standing comments between the previous declaration and this one
 }
 
 type fileComments struct {
